@@ -258,6 +258,15 @@ func (c *Conn) writeFrame(ctx context.Context, fin bool, flate bool, opcode opco
 	verifUse(c, "writeFrame", true, c.bw)
 	defer verifUse(c, "writeFrame", false, c.bw)
 
+	// Once a close frame has been written, no data frames and no further close
+	// frame may follow it. See https://tools.ietf.org/html/rfc6455#section-5.5.1
+	if c.wroteClose && opcode != opPing && opcode != opPong {
+		return 0, fmt.Errorf("close frame already written: %w", net.ErrClosed)
+	}
+	if opcode == opClose {
+		c.wroteClose = true
+	}
+
 	select {
 	case <-c.closed:
 		return 0, net.ErrClosed
